@@ -127,6 +127,14 @@ def make_target(kind, s):
     raise ValueError(kind)
 
 
+def make_targets(s):
+    seq = Seq(s)
+    rec = SeqRecord(seq, id="t")
+    return {"seq-linear": (seq, dict(linear=True), False), "seq-circular": (seq, dict(linear=False), True),
+            "rec-linear": (rec, dict(linear=True), False), "rec-circular": (rec, dict(linear=False), True),
+            "circularrecord": (CircularRecord(rec), dict(), True)}
+
+
 def text_of(x):
     if isinstance(x, SeqRecord):
         return str(x.seq)
@@ -289,8 +297,11 @@ def run_pattern(st, p, tg, band):
         # would a circular reading match where a linear one does not?
         if any(refs[True]) and not any(refs[False]):
             st.goal("linear-no-wrap-candidate")
+        shared = make_targets(s)
         for kind in KINDS:
-            target, kw, circ = make_target(kind, s)
+            # all five targets of one text share ONE Seq object and are searched one after the other, linear and circular
+            # readings alternating: an answer must not depend on what was searched just before
+            target, kw, circ = shared[kind]
             rs = refs[circ]
             st.states += 1
             if kind in full_kinds and n <= band["grid_len"]:
